@@ -2,6 +2,8 @@ package rules
 
 import (
 	"fmt"
+	"go/ast"
+	"go/constant"
 	"go/token"
 	"go/types"
 	"os"
@@ -170,6 +172,8 @@ func checkC17(p *core.Program, r *core.Report) {
 	r.Rule("R3", "no error of the migration is dropped: a call in the package whose error result is discarded while its value is used must have a callee that always returns a nil error")
 	r.Rule("R4", "text literals built by hand escape both meta-characters of the Excellent3 literal reader (the quote and the backslash); strconv.Quote is accepted as is")
 	r.Rule("R6", "the migration is a function of the template and its options: outside init, no function of the expressions package writes a package-level variable — by a store, a map update, or a mutating method of package sync (Map.Store/LoadOrStore/Swap/Delete, Once.Do excepted) called on it; a cache that outlives one call makes the output depend on what was migrated before")
+	r.Rule("R7", "the operand types the migration infers are the types the functions return: every entry name -> type of functionReturnTypes (which decides whether `+`/`-` next to a call becomes arithmetic or datetime arithmetic) names a function of the excellent function table whose implementation returns that type on every non-error path, or is listed")
+	c17R7(p, r)
 	r.Rule("R5", "text outside expressions is copied: the template scanner is switched to unescapeBody=false, BODY tokens are written unchanged, and an expression that fails to migrate is re-emitted between the delimiters the scanner stripped")
 	r.Assumption("that each renamed or re-shaped function computes what the legacy function computed is not decided (no specification of the legacy functions is in the tree); argument order inside explicit-index templates is not decided")
 
@@ -1724,4 +1728,179 @@ func (c *c17) noMutableState() {
 		})
 	}
 	c.r.OK("R6", "expressions/no-package-state-written", "flows/definition/legacy/expressions", fmt.Sprintf("%d functions scanned, %d writes to package-level variables outside init", len(fns), n))
+}
+
+// ---------------------------------------------------------------------------------------------- R7
+
+// c17ReturnTypeAllowed: entries of functionReturnTypes whose type is not the Go type the function returns.
+var c17ReturnTypeAllowed = map[string]string{
+	"format_date": "returns text — the formatted date — which the legacy arithmetic treated as a date; `date`+n on it is migrated to datetime_add, which parses the text",
+}
+
+var c17XTypeOf = map[string]string{"number": "XNumber", "datetime": "XDateTime", "date": "XDate", "time": "XTime", "text": "XText", "boolean": "XBoolean"}
+
+func c17R7(p *core.Program, r *core.Report) {
+	epk := p.Pkg("flows/definition/legacy/expressions")
+	fpk := p.Pkg("excellent/functions")
+	if epk == nil || fpk == nil {
+		r.Errorf("packages legacy/expressions / excellent/functions not loaded")
+		return
+	}
+	// the table
+	table := map[string]string{}
+	var tablePos token.Pos
+	for _, file := range epk.Syntax {
+		ast.Inspect(file, func(n ast.Node) bool {
+			vs, ok := n.(*ast.ValueSpec)
+			if !ok || len(vs.Names) != 1 || vs.Names[0].Name != "functionReturnTypes" || len(vs.Values) != 1 {
+				return true
+			}
+			cl, ok := vs.Values[0].(*ast.CompositeLit)
+			if !ok {
+				return true
+			}
+			tablePos = vs.Pos()
+			for _, e := range cl.Elts {
+				kv, ok := e.(*ast.KeyValueExpr)
+				if !ok {
+					continue
+				}
+				k, ok1 := epk.TypesInfo.Types[kv.Key]
+				v, ok2 := epk.TypesInfo.Types[kv.Value]
+				if ok1 && ok2 && k.Value != nil && v.Value != nil {
+					table[constant.StringVal(k.Value)] = constant.StringVal(v.Value)
+				}
+			}
+			return false
+		})
+	}
+	if !r.Require("function_return_type_entries", len(table), 5) {
+		return
+	}
+	// the function table: name -> implementation (the innermost function named in the entry that returns an XValue)
+	impl := map[string]*ssa.Function{}
+	for _, file := range fpk.Syntax {
+		ast.Inspect(file, func(n ast.Node) bool {
+			cl, ok := n.(*ast.CompositeLit)
+			if !ok {
+				return true
+			}
+			mt, ok := fpk.TypesInfo.TypeOf(cl).Underlying().(*types.Map)
+			if !ok {
+				return true
+			}
+			if nn, ok := mt.Elem().(*types.Named); !ok || nn.Obj().Name() != "XFunc" {
+				return true
+			}
+			for _, e := range cl.Elts {
+				kv, ok := e.(*ast.KeyValueExpr)
+				if !ok {
+					continue
+				}
+				kt, ok := fpk.TypesInfo.Types[kv.Key]
+				if !ok || kt.Value == nil {
+					continue
+				}
+				var inner *types.Func
+				ast.Inspect(kv.Value, func(m ast.Node) bool {
+					id, ok := m.(*ast.Ident)
+					if !ok {
+						return true
+					}
+					fo, ok := fpk.TypesInfo.Uses[id].(*types.Func)
+					if !ok {
+						return true
+					}
+					sig := fo.Type().(*types.Signature)
+					if sig.Results().Len() == 1 && core.ShortType(sig.Results().At(0).Type()) == "excellent/types.XValue" {
+						inner = fo
+					}
+					return true
+				})
+				if inner != nil {
+					impl[constant.StringVal(kt.Value)] = p.SSA.FuncValue(inner)
+				}
+			}
+			return true
+		})
+	}
+	if !r.Require("excellent_function_table_entries", len(impl), 60) {
+		return
+	}
+	for _, name := range core.SortedKeys(table) {
+		want := table[name]
+		key := "functionReturnTypes/" + name
+		fn := impl[name]
+		if fn == nil {
+			// a dead entry: a call of that name does not evaluate whatever is made of the operator next to it
+			r.OK("R7", key, p.Pos(tablePos), name+" is not a function of the excellent function table: the entry never applies to a call that evaluates")
+			continue
+		}
+		got := c17ReturnedXTypes(fn, 0)
+		delete(got, "XError")
+		names := core.SortedKeys(got)
+		okT := len(names) == 1 && names[0] == c17XTypeOf[want]
+		if okT {
+			r.OK("R7", key, p.Pos(fn.Pos()), fn.Name()+" returns "+strings.Join(names, ","))
+		} else if reason, ok := c17ReturnTypeAllowed[name]; ok {
+			r.OK("R7", key, p.Pos(fn.Pos()), "listed: "+reason)
+		} else {
+			r.Bad("R7", key, p.Pos(tablePos), fmt.Sprintf("the migration treats the result of %s(...) as %s, but %s returns %s: a `+` or `-` next to the call is migrated to the wrong kind of arithmetic", name, want, fn.Name(), strings.Join(names, ",")))
+		}
+	}
+}
+
+// c17ReturnedXTypes: the concrete types (names in excellent/types) of the XValues fn returns, followed through the
+// functions of its own package and of excellent/types it returns the result of.
+func c17ReturnedXTypes(fn *ssa.Function, depth int) map[string]bool {
+	out := map[string]bool{}
+	var addVal func(v ssa.Value, seen map[ssa.Value]bool)
+	addVal = func(v ssa.Value, seen map[ssa.Value]bool) {
+		if seen[v] {
+			return
+		}
+		seen[v] = true
+		switch x := v.(type) {
+		case *ssa.Phi:
+			for _, e := range x.Edges {
+				addVal(e, seen)
+			}
+		case *ssa.MakeInterface:
+			t := x.X.Type()
+			if pt, ok := t.(*types.Pointer); ok {
+				t = pt.Elem()
+			}
+			if n, ok := t.(*types.Named); ok {
+				out[n.Obj().Name()] = true
+			}
+		case *ssa.ChangeInterface:
+			addVal(x.X, seen)
+		case *ssa.Const:
+			// nil XValue: no type
+		case *ssa.Call:
+			cf := x.Call.StaticCallee()
+			if cf != nil && len(cf.Blocks) > 0 && depth < 3 && cf.Signature.Results().Len() >= 1 {
+				for k := range c17ReturnedXTypes(cf, depth+1) {
+					out[k] = true
+				}
+			} else {
+				out["?"+x.Name()] = true
+			}
+		case *ssa.Extract:
+			if c, ok := x.Tuple.(*ssa.Call); ok && x.Index == 0 {
+				addVal(c, seen)
+			} else {
+				out["?"+x.Name()] = true
+			}
+		default:
+			out["?"+v.Name()] = true
+		}
+	}
+	for _, ret := range core.Returns(fn) {
+		if len(ret.Results) == 0 {
+			continue
+		}
+		addVal(ret.Results[0], map[ssa.Value]bool{})
+	}
+	return out
 }
